@@ -127,6 +127,48 @@ pub fn run(thorough: bool, mut rng: Rng, mut out: Out) {
         let (clean, d) = crate::lanes::leaks::quiescent_clean(&o.trace);
         out.r("timeouts.scrub-overtakes-request leaves nothing", clean, &format!("{} | {}", d, ev));
     }
+    // the timed-out operation's ID is reusable and the connection keeps serving: the ID of an operation
+    // (single or search) that timed out while still queued behind a stalled write is handed out again
+    // (counter rewound through the hook, the table is the library's own) to a single operation, whose
+    // response must reach it.  R-oracle only (the rewind is not a model event).
+    let nreuse = if thorough { 120 } else { 24 };
+    for k in 0..nreuse {
+        let kind = if k % 2 == 0 { OpKind::Search } else { OpKind::Single };
+        let sc = vec![
+            Step::StallWrites(true),
+            Step::Issue { kind: OpKind::Single, tmo_ms: None }, // op 0 (id 1): the driver blocks writing it
+            Step::Settle,
+            Step::Issue { kind: kind.clone(), tmo_ms: Some(1) }, // op 1 (id 2): times out in the queue
+            Step::Settle,
+            Step::Tick(2),
+            Step::Settle,
+            Step::StallWrites(false),
+            Step::Settle,
+            Step::Send { id: 1, op: 11, good: true },
+            Step::Settle,
+            Step::Rewind(2),
+            Step::Issue { kind: OpKind::Single, tmo_ms: None }, // op 2 gets id 2 again
+            Step::Settle,
+            Step::Send { id: 2, op: 11, good: true },
+            Step::Settle,
+            Step::Issue { kind: OpKind::Single, tmo_ms: None }, // op 3 (id 3): the connection still serves
+            Step::Settle,
+            Step::Send { id: 3, op: 11, good: true },
+            Step::Settle,
+            Step::Table,
+        ];
+        let o = run_script(&sc);
+        let got2 = o.trace.iter().any(|t| t.starts_with("cli done 2 frame:"));
+        let got3 = o.trace.iter().any(|t| t.starts_with("cli done 3 frame:"));
+        let to1 = o.trace.iter().any(|t| t == "cli done 1 timeout");
+        let id2 = o.trace.iter().filter(|t| t.starts_with("drv op 2 ")).count();
+        out.case(&format!("reuse-after-timeout {:?} #{}", kind, k), true);
+        out.r(
+            &format!("timeouts.id-reusable-and-connection-serves-after-queued-timeout kind={:?}", kind),
+            to1 && got2 && got3,
+            &format!("op1 timeout={} op2(reused id 2) got its response={} op3 got its response={} requests under id 2={} | {}", to1, got2, got3, id2, o.trace.join(" ; ")),
+        );
+    }
     // grid: timeout T x reply arrival relative to the deadline x order of (send, advance) at the tie
     for &t in &[1u64, 10, 1000, 3_600_000] {
         for arrival in ["before", "at-send-first", "at-tick-first", "after", "never"] {
